@@ -43,6 +43,7 @@ type c38sym struct {
 	when int    // 0 any time, 1 only before the header is committed, 2 only after
 	max  int    // max uses per script (0 = unlimited)
 	grp  string // symbols of one group share the use counter (at most one Content-Length per script)
+	many int    // >0: one use adds this many distinct small fields k-000.. (one Header().Add each)
 }
 
 var c38syms = map[string]c38sym{
@@ -72,6 +73,13 @@ var c38syms = map[string]c38sym{
 	"Htr":  {name: "Htr", op: "header", k: "Trailer", vals: []string{"X-T1", "x-t3 ,X-T1"}, when: 1},
 	"Tval": {name: "Tval", op: "header", k: "X-T1", vals: []string{"tv-One", "tv2"}},
 	"Tund": {name: "Tund", op: "header", k: "Trailer:X-T2", vals: []string{"uv"}},
+	// header blocks larger than one frame (16384): HEADERS + 1 or 2 CONTINUATION frames. The
+	// values use octets whose Huffman code is not shorter than 8 bits ('X', 'Z'), so the block is not compressed.
+	"Hb17k": {name: "Hb17k", op: "header", k: "X-Big-A", vals: []string{strings.Repeat("X", 17000)}, when: 1},
+	"Hb33k": {name: "Hb33k", op: "header", k: "x-big-b", vals: []string{strings.Repeat("Z", 33000)}, when: 1},
+	"Hmany": {name: "Hmany", op: "header", k: "X-Many", vals: []string{"small-value-0123456789-ABCDEFGH"}, when: 1, many: 700},
+	"Htrb":  {name: "Htrb", op: "header", k: "Trailer", vals: []string{"X-Tb"}, when: 1},
+	"Tbig":  {name: "Tbig", op: "header", k: "X-Tb", vals: []string{strings.Repeat("X", 17000), strings.Repeat("Z", 17000)}},
 	// body
 	"W0":    {name: "W0", op: "write", n: 0},
 	"W1":    {name: "W1", op: "write", n: 1},
@@ -95,6 +103,8 @@ var c38families = []c38family{
 	// trailers declared / undeclared / value set or not x body x flush x body-less status
 	{"trl", []string{"S204", "Htr", "Tval", "Tund", "Hcl1", "W1", "W4097", "F", "R"}, 5, 7},
 	// everything that changes the shape of the response, short
+	// header / trailer blocks of 2-3 frames (CONTINUATION) x {no body, small body, HEAD, 204} x flush
+	{"big", []string{"S204", "Hb17k", "Hb33k", "Hmany", "Htrb", "Tbig", "W1", "F", "R"}, 4, 5},
 	{"mix", []string{"S304", "S404", "Hconn", "Hte", "Hmix", "Hcl1", "Htr", "Tval", "Tund", "W0", "W4097", "F", "R"}, 3, 5},
 }
 
@@ -161,6 +171,14 @@ func c38step(h *h2handler, m *c38model, s c38sym) {
 	var blocked bool
 	switch s.op {
 	case "header":
+		if s.many > 0 {
+			for i := 0; i < s.many && !blocked; i++ {
+				k := fmt.Sprintf("%s-%03d", s.k, i)
+				_, blocked = h.do(h2cmd{op: "header", k: k, v: s.vals[use]})
+				m.live[strings.ToLower(k)] = append(m.live[strings.ToLower(k)], s.vals[use])
+			}
+			break
+		}
 		_, blocked = h.do(h2cmd{op: "header", k: s.k, v: s.vals[use]})
 		lk := strings.ToLower(s.k)
 		m.live[lk] = append(m.live[lk], s.vals[use])
@@ -213,6 +231,7 @@ func c38shape(fs []h2frame) string {
 			if i > 0 {
 				p = "T"
 			}
+			p += strings.Repeat("c", f.Len) // Len of a merged header block = number of CONTINUATION frames
 		case FrameData:
 			p = "D"
 			if len(f.Data) == 0 {
@@ -246,8 +265,14 @@ func c38check(r *vk.Run, id string, e *h2env, h *h2handler, m *c38model) (shape 
 			fs = append(fs, f)
 		}
 	}
+	raw := fs
+	fs, okBlocks := c38mergeBlocks(raw)
 	shape = c38shape(fs)
 	desc := fmt.Sprintf("script [%s] method %s: client saw %s", strings.Join(m.hist, " "), m.method, h2traceShort(fs))
+	if !okBlocks {
+		r.Violation("response:broken-header-block", id, fmt.Sprintf("script [%s] method %s: raw frames %s", strings.Join(m.hist, " "), m.method, c38traceRaw(raw)))
+		return shape
+	}
 	if len(e.panics) > 0 {
 		desc += fmt.Sprintf(" (serve panics: %v)", e.panics)
 	}
@@ -297,9 +322,9 @@ func c38check(r *vk.Run, id string, e *h2env, h *h2handler, m *c38model) (shape 
 		got, ok := recv[k]
 		switch {
 		case !ok:
-			r.Violation("header:missing:"+k, id, fmt.Sprintf("%s; handler field %q=%q did not arrive", desc, k, v))
+			r.Violation("header:missing:"+c38signame(k), id, fmt.Sprintf("%s; handler field %q=%s did not arrive", desc, k, c38q(v)))
 		case c38join(got) != c38join(v):
-			r.Violation("header:value:"+k, id, fmt.Sprintf("%s; handler field %q=%q arrived as %q", desc, k, v, got))
+			r.Violation("header:value:"+c38signame(k), id, fmt.Sprintf("%s; handler field %q=%s arrived as %s", desc, k, c38q(v), c38q(got)))
 		}
 	}
 	for _, k := range names {
@@ -314,11 +339,11 @@ func c38check(r *vk.Run, id string, e *h2env, h *h2handler, m *c38model) (shape 
 		case strings.HasPrefix(k, ":"):
 			r.Violation("header:extra-pseudo:"+k, id, desc)
 		case c38connSpecific[k]:
-			r.Violation("header:connection-specific-sent:"+k, id, fmt.Sprintf("%s; connection-specific field %q=%q was sent", desc, k, recv[k]))
+			r.Violation("header:connection-specific-sent:"+c38signame(k), id, fmt.Sprintf("%s; connection-specific field %q=%s was sent", desc, k, c38q(recv[k])))
 		case want, c38unjudged[k]:
 		case c38bfeAdds[k] && !set:
 		default:
-			r.Violation("header:extra:"+k, id, fmt.Sprintf("%s; field %q=%q is not one of the handler's committed header fields", desc, k, recv[k]))
+			r.Violation("header:extra:"+c38signame(k), id, fmt.Sprintf("%s; field %q=%s is not one of the handler's committed header fields", desc, k, c38q(recv[k])))
 		}
 	}
 	if _, set := m.snap["proxy-authenticate"]; set {
@@ -393,9 +418,9 @@ func c38check(r *vk.Run, id string, e *h2env, h *h2handler, m *c38model) (shape 
 			got, ok := gotT[k]
 			switch {
 			case !ok:
-				r.Violation("trailer:missing:"+cls, id, fmt.Sprintf("%s; declared trailer %q=%q did not arrive", desc, k, v))
+				r.Violation("trailer:missing:"+cls, id, fmt.Sprintf("%s; declared trailer %q=%s did not arrive", desc, k, c38q(v)))
 			case c38join(got) != c38join(v):
-				r.Violation("trailer:value", id, fmt.Sprintf("%s; declared trailer %q=%q arrived as %q", desc, k, v, got))
+				r.Violation("trailer:value", id, fmt.Sprintf("%s; declared trailer %q=%s arrived as %s", desc, k, c38q(v), c38q(got)))
 			}
 		}
 		for k, v := range gotT {
@@ -405,7 +430,7 @@ func c38check(r *vk.Run, id string, e *h2env, h *h2handler, m *c38model) (shape 
 				r.Violation("trailer:not-lower-case", id, fmt.Sprintf("%s; trailer name %q", desc, k))
 			case want, undeclared[k]:
 			default:
-				r.Violation("trailer:extra:"+k, id, fmt.Sprintf("%s; trailer %q=%q was not declared+set by the handler", desc, k, v))
+				r.Violation("trailer:extra:"+c38signame(k), id, fmt.Sprintf("%s; trailer %q=%s was not declared+set by the handler", desc, k, c38q(v)))
 			}
 		}
 		if len(undeclared) > 0 && len(expT) == 0 && len(trailerFrames) == 0 {
@@ -447,11 +472,99 @@ func c38streamState(e *h2env) string {
 	return "forgotten (closed)"
 }
 
-// h2traceShort renders frames without dumping 4 KiB payloads.
+// c38mergeBlocks folds HEADERS + CONTINUATION* into one logical HEADERS frame: END_STREAM is the
+// HEADERS frame's flag (CONTINUATION cannot carry it), the field list is the one decoded when
+// END_HEADERS arrived (the shared recv attaches it to the frame that ends the block); Len is
+// reused as the number of CONTINUATION frames. ok=false: a CONTINUATION without an open block,
+// another frame inside an open block, or a block left open.
+func c38mergeBlocks(fs []h2frame) (out []h2frame, ok bool) {
+	ok = true
+	open := false
+	for _, f := range fs {
+		endHeaders := f.Flags&FlagHeadersEndHeaders != 0
+		switch {
+		case f.Type == FrameHeaders:
+			if open {
+				ok = false
+			}
+			g := f
+			g.Len = 0
+			if !endHeaders {
+				g.Fields = nil
+			}
+			out = append(out, g)
+			open = !endHeaders
+		case f.Type == FrameContinuation:
+			if !open {
+				ok = false
+				out = append(out, f)
+				continue
+			}
+			g := &out[len(out)-1]
+			g.Len++
+			if endHeaders {
+				g.Fields = f.Fields
+				open = false
+			}
+		default:
+			if open {
+				ok = false
+			}
+			out = append(out, f)
+		}
+	}
+	if open {
+		ok = false
+	}
+	return out, ok
+}
+
+// c38signame is the field name as used in signatures: the 700 numbered small fields are one class.
+func c38signame(k string) string {
+	if strings.HasPrefix(k, "x-many-") {
+		return "x-many-*"
+	}
+	return k
+}
+
+// c38q renders a value list for violation details without dumping 17 KiB values.
+func c38q(vs []string) string {
+	out := make([]string, len(vs))
+	for i, v := range vs {
+		if len(v) > 48 {
+			v = fmt.Sprintf("%s...(%d octets)", v[:8], len(v))
+		}
+		out[i] = fmt.Sprintf("%q", v)
+	}
+	return "[" + strings.Join(out, " ") + "]"
+}
+
+// h2traceShort renders merged frames (see c38mergeBlocks) without payloads or huge field values.
 func h2traceShort(fs []h2frame) string {
 	ss := make([]string, len(fs))
 	for i, f := range fs {
-		ss[i] = f.String()
+		if f.Type != FrameHeaders {
+			ss[i] = f.String()
+			continue
+		}
+		var fl []string
+		for j, hf := range f.Fields {
+			if j == 12 && len(f.Fields) > 14 {
+				fl = append(fl, fmt.Sprintf("... %d more fields", len(f.Fields)-j))
+				break
+			}
+			fl = append(fl, hf.Name+"="+c38q([]string{hf.Value}))
+		}
+		ss[i] = fmt.Sprintf("HEADERS(%d,es=%v,+%d CONTINUATION,[%s])", f.StreamID, f.EndStream, f.Len, strings.Join(fl, " "))
+	}
+	return strings.Join(ss, " ")
+}
+
+// c38traceRaw renders unmerged frames by type, flags and length only.
+func c38traceRaw(fs []h2frame) string {
+	ss := make([]string, len(fs))
+	for i, f := range fs {
+		ss[i] = fmt.Sprintf("%v(%d,flags=%#x,len=%d)", f.Type, f.StreamID, uint8(f.Flags), f.Len)
 	}
 	return strings.Join(ss, " ")
 }
@@ -501,10 +614,15 @@ func c38exec(t *testing.T, r *vk.Run, f c38family, depth int, ch *vk.Chooser, nt
 		if nth%3001 == 17 {
 			var hdr []string
 			for k, v := range m.snap {
-				hdr = append(hdr, fmt.Sprintf("%s=%q", k, v))
+				hdr = append(hdr, k+"="+c38q(v))
 			}
 			sort.Strings(hdr)
-			r.Sample(map[string]interface{}{"family": f.name, "method": m.method, "script": strings.Join(m.hist, " "), "committed_header": hdr, "server_frames": h2traceShort(c38stream1(e))})
+			nf := len(hdr)
+			if nf > 12 {
+				hdr = append(hdr[:12:12], fmt.Sprintf("... %d more", nf-12))
+			}
+			merged, _ := c38mergeBlocks(c38stream1(e))
+			r.Sample(map[string]interface{}{"family": f.name, "method": m.method, "script": strings.Join(m.hist, " "), "committed_header": hdr, "server_frames": h2traceShort(merged), "committed_fields": nf})
 		}
 	})
 }
